@@ -35,8 +35,10 @@ RULE = ("seeded sampling over sampler x (nsamples, nburnout) x x-shape {(), (1,)
         "30 sigma from the mode: burn-in must have happened), meta (constant / linearity / tuple relations); non-trivial = the f spy saw >= 2 distinct samples in the forward call and (at least one "
         "gradient with non-zero reference was compared, or the group is meta/mh_stat with its relation evaluated)")
 RULE += ('; group extra (vf/c16_extra.py): loss nonlinear in the expectation, chained parameters, one object re-assigned between two expectations with one backward, f and log p as methods of one object sharing a tensor, chain states of another dtype than the model')
+RULE += ('; round 6 (vf/c16_wide.py): kind mixdtype (tuple / list components of different dtypes and kinds - float64, float32, bool indicator, integer-valued - in seeded order on every sampler: each component = explicit weighted mean of that component = the same component integrated alone, with gradients), kind abort_reuse (f or log p raises at a seeded evaluation of the forward / plain backward / graph-building backward / second-order backward, exception caught, fresh mcquad on the same objects: objects hold the user\'s tensor objects, value + plain backward() + create_graph + second order equal the reference), kind offset (log p + constant 0, +-50, +-800 on every sampler: constant integrand, value, gradients)')
 MIN_NONTRIVIAL = {"quick": 350, "thorough": 4000}
-ASSUMPTIONS = ["float64 only; x0 does not require grad; nsamples >= 1 (nsamples = 0 has no mean)",
+ASSUMPTIONS = ["mixdtype: a result or cotangent that passes through a float32 component is compared at 2e-4 relative (float32 rounding over <= 40 samples is <= 5e-6), float64 at 1e-9; log p offsets |c| <= 800",
+               "float64 only (except kind mixdtype / x0dtype); x0 does not require grad; nsamples >= 1 (nsamples = 0 has no mean)",
                "f is polynomially bounded / bounded trigonometric, log p is Gaussian or quartic with scale parameters in [0.7, 1.5]",
                "custom steps are deterministic, stateless maps x -> mu + s*sin(2.9*roll(x) + phase) (chaotic, bounded, all states distinct)",
                "first sample index after burn-in: nburnout or nburnout+1 both accepted; an optional leading probe call f(x0) is accepted",
@@ -47,11 +49,13 @@ ASSUMPTIONS = ["float64 only; x0 does not require grad; nsamples >= 1 (nsamples 
                "second order = derivative of the first-order estimator including the score-function term of the sample weights"]
 BUDGET = {"quick": {"worker_timeout": 600, "case_timeout": 90}, "thorough": {"worker_timeout": 3000, "case_timeout": 120}}
 REQUIRED_COUNTERS = {
-    "quick": {"extra_shared_object_compared": 20, "extra_x0dtype_compared": 20, "extra_late_backward_histories": 15, "sampler_mhcustom": 150, "sampler__dummy1d": 60, "sampler_mh": 60, "grad_compared_first": 300,
+    "quick": {"wide_mixdtype_compared": 50, "wide_mixdtype_bool_components": 20, "wide_mixdtype_int_components": 20, "wide_mixdtype_f32_components": 10, "wide_alone_compared": 100, "wide_mixdtype_mhcustom": 15, "wide_mixdtype__dummy1d": 15, "wide_mixdtype_mh": 15, "wide_abort_reuse_compared": 50, "wide_abort_injected_bwd": 35, "wide_abort_injected_f_bwd_plain": 10, "wide_abort_injected_fwd": 5, "wide_offset_compared": 30, "wide_offset_large_compared": 10,
+              "extra_shared_object_compared": 20, "extra_x0dtype_compared": 20, "extra_late_backward_histories": 15, "sampler_mhcustom": 150, "sampler__dummy1d": 60, "sampler_mh": 60, "grad_compared_first": 300,
               "grad_compared_first_nograph": 300, "grad_compared_second": 150, "unused_tensor_grad_checked": 60,
               "bwd_abscissae_checked": 500, "step_history_checked": 150, "mh_stat_chains": 20, "mh_burnin_checked": 20, "mh_chain_rule_checked": 40,
               "meta_relations_checked": 40, "objparam_cases": 100, "shared_tensor_cases": 20},
-    "thorough": {"extra_shared_object_compared": 200, "extra_x0dtype_compared": 200, "extra_late_backward_histories": 150, "sampler_mhcustom": 1500, "sampler__dummy1d": 600, "sampler_mh": 600, "grad_compared_first": 3000,
+    "thorough": {"wide_mixdtype_compared": 500, "wide_mixdtype_bool_components": 200, "wide_mixdtype_int_components": 200, "wide_mixdtype_f32_components": 100, "wide_alone_compared": 1000, "wide_mixdtype_mhcustom": 150, "wide_mixdtype__dummy1d": 150, "wide_mixdtype_mh": 150, "wide_abort_reuse_compared": 500, "wide_abort_injected_bwd": 350, "wide_abort_injected_f_bwd_plain": 100, "wide_abort_injected_fwd": 50, "wide_offset_compared": 300, "wide_offset_large_compared": 100,
+                 "extra_shared_object_compared": 200, "extra_x0dtype_compared": 200, "extra_late_backward_histories": 150, "sampler_mhcustom": 1500, "sampler__dummy1d": 600, "sampler_mh": 600, "grad_compared_first": 3000,
                  "grad_compared_first_nograph": 3000, "grad_compared_second": 1500, "unused_tensor_grad_checked": 600,
                  "bwd_abscissae_checked": 5000, "step_history_checked": 1500, "mh_stat_chains": 200, "mh_burnin_checked": 200, "mh_chain_rule_checked": 400,
                  "meta_relations_checked": 400, "objparam_cases": 1000, "shared_tensor_cases": 200},
